@@ -230,6 +230,11 @@ func execC10(spec *RunSpec) *Result {
 	if rep.PoolDirty > 0 {
 		res.violate("C10", "use-after-put", "pool object modified while owned by the pool", "%d pooled scope map(s) were written to between Put and the next Get", rep.PoolDirty)
 	}
+	if os.Getenv("SIM_DEBUG") != "" {
+		for i, o := range outs {
+			fmt.Fprintf(os.Stderr, "op %d: %s\n", i, o)
+		}
+	}
 	refs := map[string]Outcome{}
 	firstSeen := map[string]int{}
 	tags := map[string]bool{}
